@@ -13,9 +13,9 @@ namespace bddg {
 inline ref::TA modelOfText(const std::string& txt, const dom::Alphabet& sig) {
   VATA::Parsing::TimbukParser par; VATA::Util::AutDescription d = par.ParseString(txt);
   std::map<std::string, size_t> st; auto sid = [&](const std::string& n) { auto it = st.find(n); if (it != st.end()) return it->second; size_t k = st.size(); st[n] = k; return k; };
-  std::map<std::string, int> sy; for (size_t i = 0; i < sig.names.size(); i++) sy[sig.names[i]] = (int)i;
+  std::map<std::string, int> sy; for (size_t i = 0; i < sig.names.size(); i++) sy[std::string(sig.names[i]) + ":" + std::to_string(sig.ranks[i])] = (int)i;   // a symbol is a (name, arity) pair
   ref::TA A; for (auto& f : d.finalStates) A.finals.insert(sid(f));
-  for (auto& t : d.transitions) { ref::Rule r; auto it = sy.find(t.second); if (it == sy.end()) { int k = 100 + (int)sy.size(); sy[t.second] = k; r.sym = k; } else r.sym = it->second; for (auto& c : t.first) r.ch.push_back(sid(c)); r.par = sid(t.third); A.rules.insert(r); }
+  for (auto& t : d.transitions) { ref::Rule r; auto it = sy.find(t.second + ":" + std::to_string(t.first.size())); if (it == sy.end()) { int k = 100 + (int)sy.size(); sy[t.second + ":" + std::to_string(t.first.size())] = k; r.sym = k; } else r.sym = it->second; for (auto& c : t.first) r.ch.push_back(sid(c)); r.par = sid(t.third); A.rules.insert(r); }
   return A;
 }
 template <class Aut> inline Aut load(const ref::TA& A, const dom::Alphabet& sig) {
